@@ -1,5 +1,6 @@
 import KyberModel.Drive.Common
 import KyberModel.Groups.Decode
+import KyberModel.Groups.BlsG2
 /-
 Handlers (C04):
   `dec <group> [params] <bytes>`          → `err` | `ok <canonical re-encoding>`
@@ -28,6 +29,8 @@ def handleDec : List String → String
     | some b => outOpt Fp2.enc (BN256.decG2 b) | none => badOp
   | ["bn254g2", b] => match hexB b with
     | some b => outOpt Fp2.enc (BN254.decG2 b) | none => badOp
+  | ["bls12381g2", b] => match hexB b with
+    | some b => outOpt BLS12381.encG2 (BLS12381.decG2 b) | none => badOp
   | ["bls12381g1", b] => match hexB b with
     | some b => outOpt BLS12381.enc (BLS12381.dec b) | none => badOp
   | ["bls12381g1-circl", b] => match hexB b with
